@@ -31,6 +31,16 @@ CLAIMED["C07"] = dict(level="fault_enumeration", ref="DESIGN.md 5/C07",
     note="Exhaustive over the crash-point coordinate only per enumerated base; bases are sampled. Crash = cooperative cancellation (no durable state exists). Leaf tasks atomic.",
     tech=TECH + "crash-point enumeration over quota polls / clock reads of a deterministic re-execution; document oracles + in-run hyper-heuristic monitor")
 
+CLAIMED["C05"] = dict(level="exploration", ref="DESIGN.md 5/C05",
+    text="Same operator histories as C04; at every hand-over of a complete search step, and after every applied insertion inside the construction loop (hook H3, 1 case in 4), every cached quantity readable through hook H4 (activity schedules, per-tour and per-solution state entries rendered bit-exactly) is compared with a canonical recomputation on a stripped twin (caches discarded, route level acceptance, per-feature refresh, solution level acceptance to the fixpoint); the fitness vector must equal the twin's.",
+    note="Entries of types outside the closed render list are counted as opaque and not compared; per-tour values recognised as order-dependent derived values (they differ between the first recomputation pass and the fixpoint: work-balance tour values) are not compared; per-solution aggregates only at hand-over.",
+    tech=TECH + "operator-history search with cache-vs-recomputation differential (stripped twin) at hand-overs and per applied insertion")
+
+CLAIMED["C15"] = dict(level="exploration", ref="DESIGN.md 5/C15",
+    text="Plan differential: for seeded ruined-and-refreshed states the real PositionInsertionEvaluator::evaluate_all is executed under many split trees, leaf orders and worker counts of the plan-driven executor (only trees rayon can produce, incl. the flat_map rule that no leaf spans two tours) and compared with the sequential single-leaf scan and with the minimum over independent per-(tour, job) evaluations; one case in four is a full solve under a generated pool layout judged by the document oracles.",
+    note="Equality is owed on: deterministic selection (BestResultSelector, exhaustive legs), single-task jobs (multi-task placement is greedy and accumulator dependent by design, C06), metric integer matrices, scale 1, default goal; cost vectors are compared up to floating point noise (1e-6 + 1e-9 relative).",
+    tech=TECH + "differential execution of the same fork-join under seeded split plans vs sequential references")
+
 NOT_APPLICABLE = {
     "C06": "pure function of (tour, job, position): exhaustive small-scope enumeration against an oracle has no schedule, clock, fault or history for a simulator to act on",
     "C09": "order laws over triples of values: pure function of its inputs, nothing for a scheduler, clock or fault to act on",
@@ -43,11 +53,9 @@ NOT_APPLICABLE = {
 }
 
 PENDING = {
-    "C05": "check under construction in this framework (cache digests, hooks H3/H4)",
     "C08": "check under construction in this framework (population histories)",
     "C12": "check under construction in this framework (single-breach injection into stored solutions)",
     "C14": "check under construction in this framework (tour/registry op histories vs model)",
-    "C15": "check under construction in this framework (plan differential on evaluate_all)",
     "C18": "check under construction in this framework (slot machine / termination histories)",
     "C19": "check under construction in this framework (GSOM histories)",
 }
